@@ -30,7 +30,7 @@ EXPLANATION = (
     'attribute that other threads null (Crazyflie.link); R10 the dispatcher idles while there is no link. Bounded *time* and the clause '
     '"no connected after the first disconnected" are not decided.')
 ASSUMPTIONS = ['user callbacks are opaque and assumed not to block on library locks', 'a join/wait with a timeout of at most 10 s (or one that cannot be folded) is treated as non-blocking for deadlock purposes']
-FLOORS = {'R11': 4, 'R12': 4, 'R1': 4, 'R2': 13, 'R3': 7, 'R4': 4, 'R5': 5, 'R6': 1, 'R7': 1, 'R8': 4, 'R9': 3, 'R10': 2}
+FLOORS = {'R11': 4, 'R12': 4, 'R1': 4, 'R13': 9, 'R2': 13, 'R3': 7, 'R4': 4, 'R5': 5, 'R6': 1, 'R7': 1, 'R8': 4, 'R9': 3, 'R10': 2}
 
 
 MAX_BOUNDED_WAIT_S = 10.0
@@ -115,6 +115,7 @@ def check(ctx):
              'the first packet sets CONNECTED, signals link_established once and unhooks itself; body %s' % body)
 
     all_updated_rules(ctx)
+    session_hygiene_rules(ctx)
 
     # ---- R3 ------------------------------------------------------------------------
     le = K.method('_link_error_cb')
@@ -421,6 +422,33 @@ def all_updated_rules(ctx):
     rs = {norm(t): norm(s.value) for s in walk_own(cr.node) if isinstance(s, ast.Assign) for t in s.targets}
     ctx.inst('R2', cr, 'new-session-resets-values', rs.get('self.values') == '{}' and rs.get('self.is_updated') == 'False' and rs.get('self.toc') == 'Toc()',
              'a new connection attempt starts with an empty value table, is_updated False and an empty TOC; resets %s' % rs)
+
+
+def session_hygiene_rules(ctx):
+    """R13 - what one session leaves behind must not reach the next, and the disconnect path itself must not hang or die:
+    finished fetchers really unregister (shared with C07.R4/R6), the memory subsystem fails pending requests with its lock released
+    (a failure callback starts the next write), and Latency.stop() only touches state its constructor created."""
+    m = ctx.model
+    from .c07 import port_registration_rules, removal_predicate_rules
+    removal_predicate_rules(ctx, 'R13')
+    port_registration_rules(ctx, 'R13')
+    ME_ = 'cflib/crazyflie/mem/__init__.py'
+    caf = m.func(ME_, 'Memory._call_all_failed_callbacks')
+    regs, g = regions(caf, 'self._write_requests_lock')
+    held = {n.id for r in regs for n in r.held}
+    cbs = g.find(lambda q: method_call(q, 'call') and norm(q.func.value).startswith('self.mem_') and norm(q.func.value).endswith('_failed_cb'))
+    ctx.inst('R13', caf, 'failure-callbacks-outside-lock', bool(cbs) and all(n.id not in held for n, _ in cbs),
+             'on disconnect the pending memory requests are failed with the (non re-entrant) write lock released: a failure callback that issues the next write would deadlock the '
+             'thread that delivers `disconnected`')
+    La = m.cls(LS, 'Latency')
+    init_attrs = {t.attr for s_ in walk_own(La.method('__init__').node) if isinstance(s_, (ast.Assign, ast.AnnAssign))
+                  for t in (s_.targets if isinstance(s_, ast.Assign) else [s_.target]) if isinstance(t, ast.Attribute) and isinstance(t.value, ast.Name) and t.value.id == 'self'}
+    stop = La.method('stop')
+    used = {a.attr for a in ast.walk(stop.node) if isinstance(a, ast.Attribute) and isinstance(a.value, ast.Name) and a.value.id == 'self' and isinstance(a.ctx, ast.Load)}
+    lazy = sorted(u for u in used if u not in init_attrs and not La.has(u))
+    ctx.inst('R13', stop, 'stop-uses-only-constructed-state', not lazy,
+             'Latency.stop() runs inside the `disconnected` fan-out at any point of the connection sequence: it may only read attributes the constructor created; '
+             'created later (AttributeError before the first ping answer): %s' % (lazy or 'none'))
 
 
 BENIGN_CALLS = ('len', 'isinstance', 'tuple', 'list', 'str', 'int', 'print', 'Timer', 'threading.Timer')
